@@ -185,12 +185,24 @@ fn structures() -> Vec<Structure> {
         Structure {
             name: "CEDT fixed memory window",
             n_opts: 5,
-            variants: 1,
-            make: |s, _, r| {
+            // every interleave-ways encoding x both arithmetics: what an option sets must not depend on the
+            // constructor's other arguments
+            variants: 16,
+            make: |s, v, r| {
+                let (code, n) = crate::tables::real::WAYS_CODES[(v % 8) as usize];
                 prog(
                     Kind::Cedt,
                     Ctor::None,
-                    vec![Op::Cfmws { base: r.u64b(), size: r.u64b(), arith: 1, gran: 2, ways: 1, qtg: r.u16b(), targets: vec![r.bytes(), r.bytes()], opts: s.to_vec() }],
+                    vec![Op::Cfmws {
+                        base: r.u64b(),
+                        size: r.u64b(),
+                        arith: (v / 8) as u8,
+                        gran: r.below(7) as u8,
+                        ways: code,
+                        qtg: r.u16b(),
+                        targets: (0..n).map(|_| r.bytes()).collect(),
+                        opts: s.to_vec(),
+                    }],
                 )
             },
         },
@@ -367,7 +379,39 @@ pub fn run(cfg: &Cfg) -> Report {
          every enumerated state; whole image compared with the reference encoding (flag field = union of specification bits, no other byte changes); \
          distinct = distinct (structure, option set, order, variant) programs",
     );
-    rep.assume("overwrite-style enumerated setters (PM profile, acpi_enable/disable, dsdt_32/64, value-carrying builders) are repeated only with the same value; conflicting repeats are outside the property");
+    rep.assume("overwrite-style setters of plain values (PM profile, acpi_enable/disable, dsdt_32/64, value-carrying builders) are repeated only with the same value; the bit-pattern attributes of the PPTT cache node are also repeated with different values (union of bits)");
+    // the enumerated PPTT cache attributes are bit patterns OR-ed into one attribute byte: the statement's
+    // "union of the specification-defined bits of exactly the options invoked, any number of times" is
+    // well defined for them even when one attribute is given twice with different values. All call
+    // sequences of length 1..=3 over the 8 (attribute, value) pairs, with and without a value-carrying
+    // neighbour.
+    let pairs: [(u8, u32); 8] = [(4, 0), (4, 1), (4, 2), (5, 0), (5, 1), (5, 2), (6, 0), (6, 1)];
+    rep.merge(par_cases(cfg, "options.pptt_attribute_unions", 8 + 64 + 512, |cx| {
+        let mut i = cx.idx;
+        let len = if i < 8 {
+            1
+        } else if i < 72 {
+            i -= 8;
+            2
+        } else {
+            i -= 72;
+            3
+        };
+        let mut calls: Vec<(u8, u32)> = Vec::new();
+        for _ in 0..len {
+            calls.push(pairs[(i % 8) as usize]);
+            i /= 8;
+        }
+        let mut r = cx.rng.clone();
+        if cx.idx % 2 == 1 {
+            calls.insert(r.usize_below(calls.len() + 1), (7, r.u16b() as u32));
+        }
+        let p = prog(Kind::Pptt, Ctor::None, vec![Op::Cache { calls: calls.clone() }]);
+        if judge_prog(cx, "PPTT cache node, attribute given repeatedly", &p) {
+            cx.rep.cov("pptt_attribute_sequence");
+            cx.rep.distinct(&calls);
+        }
+    }));
     let structs = structures();
     for (si, s) in structs.iter().enumerate() {
         let n_masks = 1u64 << s.n_opts;
